@@ -566,6 +566,28 @@ func wireGenResp(k *kernel.Kernel, op *wireOp, proto int) wireResp {
 			k.Fault("resp.deep-metadata")
 		} else {
 			nr := tp.Next(5)
+			if tp.Chance(1, 16) {
+				// a long page of rows that all look alike (compresses very well)
+				nr = 200 + tp.Next(500)
+				var row []wireCell
+				for _, c := range r.cols {
+					if tp.Chance(1, 2) {
+						row = append(row, wireCell{null: true})
+						continue
+					}
+					v, b := genValue(tp, c.t, proto)
+					if len(b) > 64 {
+						row = append(row, wireCell{null: true}) // keep the page small on the wire
+						continue
+					}
+					row = append(row, wireCell{val: v, bytes: b})
+				}
+				for i := 0; i < nr; i++ {
+					r.rows = append(r.rows, row)
+				}
+				nr = 0
+				k.Fault("resp.many-identical-rows")
+			}
 			for i := 0; i < nr; i++ {
 				var row []wireCell
 				for _, c := range r.cols {
